@@ -150,6 +150,17 @@ theorem tie_error_handler_slots :
 theorem tie_vital_destruct_order :
     Gen.C05.destructRecordsNamesBeforeBlanking = true ∧ Gen.C05.fixObjectNamesRestoresBoth = true := by decide
 
+/-- every registered handler still puts back the C state its efun keeps across callbacks: sort_array_unlink pops the sort
+    context AND points the comparison trampoline's global (`sort_array_ftc`) at the enclosing sort again; the unique_* handlers
+    unlink their list heads; fix_object_names restores both names.  (Model: `runSlotHandler` — fix_object_names restores the
+    names, every other handler unlinks the head of `efunCtx`; `popN_unlinks_efun_contexts`.  On the driver: nested efun-callback
+    cases, no crash, outer result correct by value.) -/
+theorem tie_handler_effects :
+    ∀ p ∈ [("sort_array_unlink", "sort_array_ftc"), ("sort_array_unlink", "sort_ctx_top"),
+           ("unique_array_error_handler", "g_u_list"), ("unique_mapping_error_handler", "g_u_m_list"),
+           ("fix_object_names", "master_ob->name"), ("fix_object_names", "simul_efun_ob->name")],
+      p ∈ Gen.C05.handlerAssigns := by decide
+
 /-- no handler of a T_ERROR_HANDLER slot calls back into LPC or raises an error: running one while the stack is unwound
     cannot start another unwinding (the model's `runSlotHandler` is a plain state update) -/
 theorem tie_error_handlers_are_leaves : Gen.C05.errorHandlersThatCallBack = [] := by decide
